@@ -26,7 +26,9 @@ type scriptedConn struct {
 	r, w     int
 	chunks   [][]byte
 	fault    string
-	withData bool // Read reports the end of the stream together with the last octets
+	withData bool     // Read reports the end of the stream together with the last octets
+	later    [][]byte // octets that arrive after a transient fault (a read deadline that expired)
+	faulted  bool
 }
 
 func (c *scriptedConn) Size() int { return c.w - c.r }
@@ -81,7 +83,13 @@ func (c *scriptedConn) Read(p []byte) (int, error) {
 	}
 	for c.Size() == 0 {
 		if !c.arrive() {
-			if c.fault == "err" {
+			if c.fault == "timeout" && !c.faulted {
+				// the deadline expires once; whoever reads on gets the rest of the stream
+				c.faulted = true
+				c.chunks, c.later = c.later, nil
+				return 0, deadlineErr{}
+			}
+			if c.fault == "err" || c.fault == "timeout" {
 				return 0, errInjected
 			}
 			return 0, io.EOF
@@ -98,6 +106,13 @@ func (c *scriptedConn) Read(p []byte) (int, error) {
 	}
 	return n, nil
 }
+
+// deadlineErr is what a net.Conn returns when its read deadline has passed (a net.Error with Timeout() true)
+type deadlineErr struct{}
+
+func (deadlineErr) Error() string   { return "i/o timeout" }
+func (deadlineErr) Timeout() bool   { return true }
+func (deadlineErr) Temporary() bool { return true }
 
 func mkFrame(body []byte) []byte {
 	f := make([]byte, 4+len(body))
@@ -163,6 +178,18 @@ func genFrame(g *genCtx) {
 			small := mkFrame(randBytes(r, 12))
 			emit(frameCase(cd, [][]byte{big, small}, nil, nil, "eof", true, false))
 			emit(frameCase(cd, [][]byte{big, small}, nil, []int{total - 1, 1 + len(small)}, "eof", false, true))
+		}
+	}
+	// (v) a read deadline expires inside a frame and the stream goes on afterwards: the blocking extractor reports the
+	// failure (the model sees a stream that ends at the fault; what follows is the driver's secret)
+	for _, cd := range codecs {
+		for i := 0; i < 24; i++ {
+			f1, f2, f3 := mkFrame(randBytes(r, 4+r.Intn(30))), mkFrame(randBytes(r, 4+r.Intn(30))), mkFrame(randBytes(r, 8))
+			at := len(f1) + 1 + r.Intn(len(f2)-1) // inside the second frame
+			all := append(append(append([]byte{}, f1...), f2...), f3...)
+			c := frameCase(cd, [][]byte{f1}, all[len(f1):at], []int{at}, "timeout", true, false)
+			c["later"] = B(all[at:])
+			emit(c)
 		}
 	}
 	// (iii) random frame lists, random multi-cut schedules, random interleavings
@@ -299,6 +326,10 @@ func runFrame(c Case, tr *Tracer) {
 	}
 	stream := caseBytes(c, "stream")
 	conn := &scriptedConn{fault: caseStr(c, "fault"), withData: conn0WithData}
+	if l := caseBytes(c, "later"); len(l) > 0 {
+		conn.later = [][]byte{l}
+		conn.withData = false
+	}
 	off := 0
 	if cs, ok := c["cuts"].([]interface{}); ok {
 		for _, x := range cs {
@@ -316,7 +347,11 @@ func runFrame(c Case, tr *Tracer) {
 	if sent == nil {
 		sent = []interface{}{}
 	}
-	tr.emit(Ev{"ev": "Start", "codec": caseStr(c, "codec"), "sent": sent, "stream": B(stream), "fault": conn.fault, "site": caseStr(c, "codec")})
+	mfault := conn.fault
+	if mfault == "timeout" {
+		mfault = "err"
+	}
+	tr.emit(Ev{"ev": "Start", "codec": caseStr(c, "codec"), "sent": sent, "stream": B(stream), "fault": mfault, "site": caseStr(c, "codec")})
 	steps, _ := c["steps"].([]interface{})
 	closed := false
 	for _, s := range steps {
